@@ -176,6 +176,38 @@ theorem src_evaluate_emission_ktables (h0 : ∀ x : α, (0 : α) + x = x) (pi h 
   simp only [if_true, hpair, hnon, hsurf, hsumL, hsumD, List.range_eq_range']
   exact foldl_proj _ (fun (st : α × α × α × α) => st.2.2.2) _ _ (fun st l => rfl) _
 
+/-- **`EmissionModel.evaluate_emission_ktables`** with NO molecular absorption in the contribution list
+    (`molecule_absorption is None`: a model built without an AbsorptionContribution, and every non-molecular entry of
+    `model_contrib()`): component `I` is the model's `emissionKNoMol`, whatever stands for the unread
+    `molecule_absorption.contribute / .sigma_xsec / .weights` and `ngauss`.  Every carrier, no algebra. -/
+theorem src_evaluate_emission_ktables_nomol (pi h c kb lit mq nu : α) (nonmol : List (Kind × List α))
+    (dz dens temps : List α) (ng : Nat)
+    (molc : Nat → Nat → Nat → Nat → (Nat → α) → α → (Nat → α) → α) (sk : Nat → Nat → α) (w : Nat → α) :
+    Gen.SrcC20.evaluate_emission_ktables nu ng kb pi h c lit (dispatchK nonmol) (fn dz) (fn dens) false
+        molc mq temps.length nonmol.length sk (fn temps) w
+      = emissionKNoMol (pcOf pi h c kb lit) nonmol dz dens temps nu ((1 : α) / mq) := by
+  have hnon : ∀ lo hi (buf : α),
+      (List.range' 0 nonmol.length).foldl (fun b ci => dispatchK nonmol ci lo hi 0 0 (fn dens) b (fn dz)) buf
+        = nonmol.foldl (fun a c => tauAcc c dz dens lo hi a) buf := by
+    intro lo hi buf
+    have : (fun (b : α) ci => dispatchK nonmol ci lo hi 0 0 (fn dens) b (fn dz))
+        = fun b ci => (fun a c => tauAcc c dz dens lo hi a) b (nonmol.getD ci (Kind.lin, [])) := by
+      funext b ci; exact dispatchK_eq nonmol dz dens ci lo hi b
+    rw [this]
+    exact foldl_range'_getD (fun a c => tauAcc c dz dens lo hi a) nonmol _ buf
+  have hpair : ∀ lo1 hi1 lo2 hi2 : Nat,
+      (List.range' 0 nonmol.length).foldl (fun (st : α × α) ci =>
+        (dispatchK nonmol ci lo1 hi1 0 0 (fn dens) st.1 (fn dz), dispatchK nonmol ci lo2 hi2 0 0 (fn dens) st.2 (fn dz)))
+        ((0 : α), (0 : α))
+      = (tauRange nonmol dz dens lo1 hi1, tauRange nonmol dz dens lo2 hi2) := by
+    intro lo1 hi1 lo2 hi2
+    rw [foldl_pair (fun (b : α) ci => dispatchK nonmol ci lo1 hi1 0 0 (fn dens) b (fn dz))
+      (fun (b : α) ci => dispatchK nonmol ci lo2 hi2 0 0 (fn dens) b (fn dz)), hnon, hnon]
+    rfl
+  unfold Gen.SrcC20.evaluate_emission_ktables emissionKNoMol
+  simp only [Bool.false_eq_true, if_false, hpair, hnon, List.range_eq_range']
+  exact foldl_proj _ (fun (st : α × α × α × α) => st.2.2.2) _ _ (fun st l => rfl) _
+
 /-- components `_mu`, `_w` of the tuple `evaluate_emission_ktables` returns, for the `leggauss` node `x` / weight `wt`
     (`_mu_quads = muOf x`, `_wi_quads = wOf wt` by `set_num_gauss`, tied in `Props/C02Src.lean`): what `fluxOf` uses -/
 theorem src_evaluate_emission_ktables_mu (nu x : α) (ng : Nat) :
